@@ -156,10 +156,13 @@ def impl_apply(tree, rn, i):
     if out.get("impl", ("",))[0] == "ok" and (core.shash(core.tuple_to_wire(tree), rn, i) % 3 == 0):
         try:
             cands = []
+            searching = None
             for rn2 in core.RULE_NAMES:
+                searching = rn2
                 r2 = core.rule_instance(rn2)
                 for n2 in r2.find_nodes(rroot):
                     cands.append((rn2, n2.r_index))
+            searching = None
             cands.sort()
             if cands:
                 rn2, idx2 = cands[core.shash(rn, i, len(cands)) % len(cands)]
@@ -176,7 +179,8 @@ def impl_apply(tree, rn, i):
                     out["second_step"] = {"rule": rn2, "idx": idx2, "problem": f"apply_to raised {type(e).__name__}: {e}"[:200],
                                           "tree_after_first_step": out.get("text")}
         except Exception as e:  # noqa
-            out["second_step"] = {"problem": f"find_nodes raised {type(e).__name__} on a rewritten tree"}
+            out["second_step"] = {"rule": searching, "problem": f"find_nodes of {searching} raised {type(e).__name__} on a rewritten tree",
+                                  "tree_after_first_step": out.get("text")}
     return out
 
 
